@@ -98,6 +98,8 @@ type ghostClause struct {
 type epochRec struct {
 	prefix string
 	id     int
+	pre    *State // "modifies fresh": the state before the havoc; objects older than bound keep their contents
+	bound  string
 }
 
 type State struct {
@@ -174,9 +176,12 @@ type FnCtx struct {
 	closureOf map[*ssa.Alloc]*ssa.MakeClosure
 	fvs       map[string]VPtr // captured variables when fn is a closure
 	callAsserts map[int]int   // assertcall clause index -> matching call sites executed
+	curInstr  ssa.Instruction
+	frameOnly bool // computing the caller-visible frame (callee writes into its own fresh objects do not count)
 	firstIter []string
 	allocOrder map[*ssa.Alloc]int
 	iterMap   map[ssa.Value]string
+	iterMapT  map[ssa.Value]*types.Map
 	keepTrivial bool
 	ensuresAtSeen map[string]bool
 	refineHyp string
@@ -221,6 +226,13 @@ func (c *FnCtx) define(hint, sort, body string) string {
 		return body
 	}
 	n := c.fresh(hint)
+	if sort == sInt && strings.Contains(body, "(ite ") {
+		// conditional integer terms (wrap-around arithmetic, merges) are named constants too:
+		// expanded as macros they would put 'ite' inside quantifier patterns
+		c.cmds = append(c.cmds, cmd{kind: cDeclare, name: n, sort: sort})
+		c.cmds = append(c.cmds, cmd{kind: cAssert, body: eq(n, body)})
+		return n
+	}
 	if sort == sBool {
 		// Booleans (path conditions) are named constants with a defining
 		// equation: as macros they would copy quantified invariants into
@@ -327,9 +339,11 @@ func (c *FnCtx) heapGet(st *State, name, sort string) string {
 		return t
 	}
 	ep := 0
+	var rec *epochRec
 	for i := len(st.epochs) - 1; i >= 0 && !c.eng.isImmutable(name); i-- {
 		if strings.HasPrefix(name, st.epochs[i].prefix) {
 			ep = st.epochs[i].id
+			rec = &st.epochs[i]
 			break
 		}
 	}
@@ -338,6 +352,13 @@ func (c *FnCtx) heapGet(st *State, name, sort string) string {
 		c.declared[n] = true
 		c.cmds = append(c.cmds, cmd{kind: cDeclare, name: n, sort: sort})
 		c.eng.heapSorts[name] = sort
+		if rec != nil && rec.pre != nil && strings.HasPrefix(sort, "(Array Int") {
+			// the callee wrote this family only in objects it allocated itself
+			old := c.heapGet(rec.pre, name, sort)
+			r := c.fresh("fr")
+			c.assert(fmt.Sprintf("(forall ((%s Int)) (! (=> (and (<= 0 %s) (< %s %s)) (= (select %s %s) (select %s %s))) :pattern ((select %s %s))))",
+				r, r, r, rec.bound, n, r, old, r, n, r))
+		}
 	}
 	st.heap[name] = n
 	return n
@@ -357,12 +378,54 @@ func (c *FnCtx) havocHeap(st *State, prefix string) {
 			delete(st.heap, k)
 		}
 	}
-	st.epochs = append(st.epochs, epochRec{prefix, id})
+	st.epochs = append(st.epochs, epochRec{prefix: prefix, id: id})
 	if prefix == "" {
 		// allocation counter may have advanced
 		nr := c.declare("nextRef", sInt)
 		c.assert(le(st.nextRef, nr))
 		st.nextRef = nr
+	}
+}
+
+// havocHeapFresh: the families with this prefix change, but only in objects allocated after this point.
+func (c *FnCtx) havocHeapFresh(st *State, prefix string) {
+	c.havocHeapFreshFrom(st, prefix, st.clone())
+}
+
+// havocHeapFreshFrom: objects that existed in state pre keep the contents they had in pre.
+func (c *FnCtx) havocHeapFreshFrom(st *State, prefix string, pre *State) {
+	c.havocHeap(st, prefix)
+	rec := &st.epochs[len(st.epochs)-1]
+	rec.pre, rec.bound = pre, pre.nextRef
+	for _, k := range sortedKeys(pre.heap) {
+		if strings.HasPrefix(k, prefix) && !c.eng.isImmutable(k) {
+			c.heapGet(st, k, c.eng.heapSorts[k])
+		}
+	}
+}
+
+// freshFamily: the families with this prefix are all declared "modifies fresh" by this function's contract.
+func (c *FnCtx) freshFamily(prefix string) bool {
+	for _, f := range c.fc.ModFresh {
+		if strings.HasPrefix(prefix, f) {
+			return true
+		}
+	}
+	return false
+}
+
+// obligeFresh: under "modifies fresh X" every write into X goes to an object allocated by this call.
+func (c *FnCtx) obligeFresh(st *State, fam, ref string, in ssa.Instruction) {
+	for _, f := range c.fc.ModFresh {
+		if strings.HasPrefix(fam, f) {
+			pos := token.NoPos
+			anchor := fam
+			if in != nil {
+				pos, anchor = in.Pos(), c.anchor(in)
+			}
+			c.oblige(st, "frame", anchor, pos, le(c.entry.nextRef, ref), "write into "+fam+" targets an object allocated by this call (modifies fresh "+f+")", nil)
+			return
+		}
 	}
 }
 
@@ -505,6 +568,10 @@ func (c *FnCtx) freshVal(st *State, t types.Type, hint string) Val {
 			out.E = append(out.E, c.freshVal(st, u.At(i).Type(), fmt.Sprintf("%s.%d", hint, i)))
 		}
 		return out
+	case *types.Map:
+		n := c.declare(hint, sInt)
+		c.assert(and(le("0", n), lt(n, st.nextRef)))
+		return VInt{n}
 	default:
 		n := c.declare(hint, sInt)
 		c.assert(le("0", n))
@@ -532,6 +599,10 @@ func (c *FnCtx) typeInv(st *State, v Val, t types.Type) string {
 	case *types.Interface:
 		i := v.(VIface)
 		return and(le("0", i.Typ), implies(eq(i.Typ, "0"), eq(i.Pay, "0")))
+	case *types.Map:
+		if m, ok := v.(VInt); ok {
+			return and(le("0", m.T), lt(m.T, st.nextRef)) // a map value is nil or an allocated map
+		}
 	case *types.Pointer:
 		if p, ok := v.(VPtr); ok && p.Root == rootObj && len(p.Path) == 0 {
 			return le("0", p.Ref) // (pointers into arrays kept in memory are encoded as huge references, see elemptr)
@@ -742,6 +813,9 @@ func (c *FnCtx) store(st *State, p VPtr, v Val) {
 		panic(unsupported("write into the read-only region %s", p.Reg))
 	}
 	fam, idx, t := c.addrFamily(p)
+	if len(c.fc.ModFresh) > 0 && len(idx) > 0 {
+		c.obligeFresh(st, fam, idx[0], c.curInstr)
+	}
 	if sl, ok := v.(VSlice); ok && c.eng.cs.Regions[fam] != "" && sl.Reg != c.eng.cs.Regions[fam] {
 		c.assumptions["ownership: a slice stored into "+fam+" hands its backing array over to the read-only region "+c.eng.cs.Regions[fam]] = true
 	}
